@@ -1,0 +1,25 @@
+//go:build verif
+
+package transport
+
+// Add-only read accessors for the C14 correspondence check (pool occupancy before a scripted exchange).
+
+// VerifIdleConns reports the sizes of the idle set and of the set of all connections.
+func (t *ReuseConnTransport) VerifIdleConns() (idle, all int) {
+	t.m.Lock()
+	defer t.m.Unlock()
+	return len(t.idleConns), len(t.conns)
+}
+
+// VerifPoolStatus reports (dialing, busy, idle) of the connection pool.
+func (t *PipelineTransport) VerifPoolStatus() (dialing, busy, idle int) {
+	s := t.pool.Status()
+	return s.Dialing, s.Busy, s.Idle
+}
+
+// VerifHasConn reports whether a QUIC connection is cached.
+func (t *QuicTransport) VerifHasConn() bool {
+	t.m.Lock()
+	defer t.m.Unlock()
+	return t.c != nil
+}
